@@ -146,6 +146,15 @@ def same_object_replay(src, seed, actions, modes):
 
     def run():
         np.random.seed(seed)
+        # (looking at the environment is not part of the trajectory: the first call builds the renderer)
+        import contextlib
+        import io
+        with contextlib.redirect_stdout(io.StringIO()):
+            try:
+                env.render_state()
+                env.render_obs()
+            except Exception:
+                pass
         out = []
         st_ = state
         for a in actions[:40]:
